@@ -6,8 +6,9 @@ context.build(cls, namespace)`, `qname = qname or meta.qname`, children get
 `namespace = split_qname(qname)[0]`).
 
 The object tree is a pre-order token list; only element fields holding a model
-instance of exactly the field's class or a primitive are modelled (no xsi:type
-substitution, wildcards, compound fields, wrappers, lists).
+instance of exactly the field's class or a primitive, and compound (`Elements`)
+fields holding model instances, are modelled (no xsi:type attributes, wildcards,
+primitive values in compound fields).
 -/
 import XsdataModel.Ctx.Universe
 
@@ -37,10 +38,26 @@ def wrapperStart (v : Var) : List Str :=
   | some q => [q]
   | none => []
 
+/-- `XmlVar.find_clazz_choice(clazz)`: the first choice whose type is exactly the
+value's class, otherwise the first choice whose type is a base of it -/
+def findClazzChoice (U : Universe) (choices : List ChoiceVar) (c : ClassId) : Option ChoiceVar :=
+  match choices.find? (fun ch => ch.cls == c) with
+  | some ch => some ch
+  | none => choices.find? (fun ch => isSubclass U c ch.cls)
+
+/-- the `xsi:type` attribute of a model value held by an element var / a choice whose
+declared type is `declared`: none for the exact type, otherwise
+`real_xsi_type(var.qname, meta.target_qname)` if truthy; written as `@<qname>` -/
+def xsiAttr (declared : Option ClassId) (qname : Str) (c : ClassId) (m : Meta) : List Str :=
+  if declared == some c then [] else
+  match m.targetQName with
+  | some (t :: ts) => if (t :: ts) = qname then [] else ['@' :: t :: ts]
+  | _ => []
+
 /-- the serializer's walk, parametrised by how `build` is answered
 (`bld s c pns` = new state and result) so that the same code runs against the
 shared cache and against the cache-free specification -/
-def serWalk {σ} (bld : σ → ClassId → Option Str → σ × Except Err Meta) :
+def serWalk {σ} (U : Universe) (bld : σ → ClassId → Option Str → σ × Except Err Meta) :
     List Tok → σ → List Frame → List Str → σ × Except Err (List Str)
   | [], s, _, out => (s, .ok out)
   | .enter i c :: rest, s, [], out =>
@@ -48,25 +65,47 @@ def serWalk {σ} (bld : σ → ClassId → Option Str → σ × Except Err Meta)
     let _ := i
     match bld s c none with
     | (s', .error e) => (s', .error e)
-    | (s', .ok m) => serWalk bld rest s' [⟨m.vars, targetUri m.qname⟩] (out ++ [m.qname])
+    | (s', .ok m) => serWalk U bld rest s' [⟨m.vars, targetUri m.qname⟩] (out ++ [m.qname])
   | .enter i c :: rest, s, f :: fs, out =>
     match f.vars[i]? with
     | none => (s, .error .index)
     | some v =>
+      if v.kind == .elements then
+        -- convert_choice: a model value of a compound field
+        match findClazzChoice U v.choices c with
+        | some ch =>
+          -- convert_xsi_type with the choice: convert_dataclass(value, namespace, choice.qname)
+          match bld s c f.ns with
+          | (s', .error e) => (s', .error e)
+          | (s', .ok m) =>
+            serWalk U bld rest s' (⟨m.vars, targetUri ch.qname⟩ :: f :: fs)
+              (out ++ [ch.qname] ++ xsiAttr (some ch.cls) ch.qname c m)
+        | none =>
+          -- no choice: meta = fetch(cls, namespace); convert_dataclass(value, qname=meta.target_qname)
+          match bld s c f.ns with
+          | (s1, .error e) => (s1, .error e)
+          | (s1, .ok m1) =>
+            match bld s1 c none with
+            | (s2, .error e) => (s2, .error e)
+            | (s2, .ok m2) =>
+              let q := if truthy m1.targetQName then m1.targetQName.getD [] else m2.qname
+              serWalk U bld rest s2 (⟨m2.vars, targetUri q⟩ :: f :: fs) (out ++ [q])
+      else
       -- convert_dataclass(value, namespace, var.qname)
       match bld s c f.ns with
       | (s', .error e) => (s', .error e)
       | (s', .ok m) =>
         -- the classes of the child values get `meta.namespace` of this class (repair c01g-01; before:
         -- the namespace of the element name `v.qname`)
-        serWalk bld rest s' (⟨m.vars, targetUri m.qname⟩ :: f :: fs) (out ++ wrapperStart v ++ [v.qname])
-  | .leaf _ :: rest, s, [], out => serWalk bld rest s [] out
+        serWalk U bld rest s' (⟨m.vars, targetUri m.qname⟩ :: f :: fs)
+          (out ++ wrapperStart v ++ [v.qname] ++ xsiAttr v.cls v.qname c m)
+  | .leaf _ :: rest, s, [], out => serWalk U bld rest s [] out
   | .leaf i :: rest, s, f :: fs, out =>
     match f.vars[i]? with
     | none => (s, .error .index)
     | some v =>
-      serWalk bld rest s (f :: fs)
+      serWalk U bld rest s (f :: fs)
         (if v.kind == .element then out ++ wrapperStart v ++ [v.qname] else out ++ wrapperStart v)
-  | .leave :: rest, s, fs, out => serWalk bld rest s fs.tail out
+  | .leave :: rest, s, fs, out => serWalk U bld rest s fs.tail out
 
 end Xs.Ctx
